@@ -43,16 +43,16 @@ func CheckEnc(c ECase) *kit.Violation {
 	}); v != nil {
 		return kit.Failf("Accept-Encoding=%q offers=%q: %s", lines, c.Offers, v.Msg)
 	}
-	maxQ := 0
+	maxQ := "0."
 	for _, o := range c.Offers {
 		for _, r := range c.Ranges {
-			if r.matchesCoding(o) && r.Milli() > maxQ {
-				maxQ = r.Milli()
+			if r.matchesCoding(o) && r.Weight() > maxQ {
+				maxQ = r.Weight()
 			}
 		}
 	}
 	desc := func() string { return kit.Failf("Accept-Encoding=%q offers=%q -> %q", lines, c.Offers, got).Msg }
-	if maxQ == 0 {
+	if maxQ == "0." {
 		// nothing acceptable: no header, nothing matches, or only q=0 matches
 		if got != "" && got != "identity" {
 			return kit.Failf("ENCODING %s: nothing is acceptable, want \"\" or \"identity\"", desc())
@@ -65,7 +65,7 @@ func CheckEnc(c ECase) *kit.Violation {
 	admissible := map[string]bool{}
 	for i, o := range c.Offers {
 		for _, r := range c.Ranges {
-			if !r.matchesCoding(o) || r.Milli() != maxQ {
+			if !r.matchesCoding(o) || r.Weight() != maxQ {
 				continue
 			}
 			admissible[o] = true
@@ -83,14 +83,14 @@ func CheckEnc(c ECase) *kit.Violation {
 		}
 	}
 	if !admissible[got] {
-		return kit.Failf("ENCODING %s: the maximal weight %v is carried by %v only", desc(), float64(maxQ)/1000, keysOf(admissible, c.Offers))
+		return kit.Failf("ENCODING %s: the maximal weight %s is carried by %v only", desc(), maxQ, keysOf(admissible, c.Offers))
 	}
 	want := map[string]bool{c.Offers[firstAny]: true}
 	if star && named {
 		want[c.Offers[firstExact]] = true
 	}
 	if !want[got] {
-		return kit.Failf("ENCODING-TIE %s: among the offers of weight %v the earliest (or the one named explicitly) is %v", desc(), float64(maxQ)/1000, keysOf(want, c.Offers))
+		return kit.Failf("ENCODING-TIE %s: among the offers of weight %s the earliest (or the one named explicitly) is %v", desc(), maxQ, keysOf(want, c.Offers))
 	}
 	// the parser sees the same list
 	specs, v := parseAccept("Accept-Encoding", lines)
@@ -101,7 +101,7 @@ func CheckEnc(c ECase) *kit.Violation {
 		return kit.Failf("PARSE Accept-Encoding=%q: ParseAccept returned %d codings %+v, the header holds %d", lines, len(specs), specs, len(c.Ranges))
 	}
 	for i, r := range c.Ranges {
-		wq := float64(r.Milli()) / 1000
+		wq := r.Float()
 		if specs[i].Value != r.Value() || math.IsNaN(specs[i].Q) || math.Abs(specs[i].Q-wq) > 2e-4 {
 			return kit.Failf("PARSE Accept-Encoding=%q: coding %d parsed as %+v, want {%s %v}", lines, i, specs[i], r.Value(), wq)
 		}
@@ -124,6 +124,7 @@ func keysOf(m map[string]bool, order []string) []string {
 // GenEnc draws codings with weights, whitespace and line breaks, and an offer list.
 func GenEnc(t *rapid.T) ECase {
 	var c ECase
+	qc := newQCtx()
 	no := rapid.IntRange(0, 4).Draw(t, "noffers")
 	for i := 0; i < no; i++ {
 		c.Offers = append(c.Offers, rapid.SampledFrom(codings).Draw(t, "offer"))
@@ -141,9 +142,9 @@ func GenEnc(t *rapid.T) ECase {
 		}
 		r.HasQ = rapid.IntRange(0, 3).Draw(t, "hasq") != 0
 		if r.HasQ {
-			r.Q = genQ(t, genMilli(t))
+			r.Q = qc.genQ(t, genMilli(t))
 			if i > 0 && c.Ranges[0].HasQ && rapid.IntRange(0, 2).Draw(t, "sameq") == 0 {
-				r.Q = genQ(t, c.Ranges[0].Q.Milli)
+				r.Q = qc.genQ(t, c.Ranges[0].Q.Milli)
 			}
 		}
 		r.WS = genWS(t, 4)
@@ -158,24 +159,24 @@ func ClassifyEnc(c ECase) (bool, []string) {
 	l := map[string]bool{}
 	longQ, zeroQ := rangeLabels(c.Ranges, l)
 	nt := longQ || zeroQ
-	maxQ := 0
+	maxQ := "0."
 	star, named := false, false
-	byQ := map[int]map[string]bool{}
+	byQ := map[string]map[string]bool{}
 	for _, o := range c.Offers {
 		for _, r := range c.Ranges {
 			if !r.matchesCoding(o) {
 				continue
 			}
-			if r.Milli() > maxQ {
-				maxQ = r.Milli()
+			if r.Weight() > maxQ {
+				maxQ = r.Weight()
 			}
-			if r.Milli() == 0 {
+			if r.Zero() {
 				continue
 			}
-			if byQ[r.Milli()] == nil {
-				byQ[r.Milli()] = map[string]bool{}
+			if byQ[r.Weight()] == nil {
+				byQ[r.Weight()] = map[string]bool{}
 			}
-			byQ[r.Milli()][o] = true
+			byQ[r.Weight()][o] = true
 			if r.Type == "*" {
 				star = true
 			} else {
@@ -195,7 +196,7 @@ func ClassifyEnc(c ECase) (bool, []string) {
 	}
 	switch {
 	case len(c.Ranges) == 0:
-	case maxQ == 0:
+	case maxQ == "0.":
 		l["nothing acceptable"] = true
 	default:
 		l["selects an offer"] = true
